@@ -4,7 +4,7 @@ import PySMT.Spec.Opt
 Line-protocol driver for C18.
 
 ```
-opt <single|boxed|lexi|pareto> <sua|incr> <linear|binary> <fuel> <goals> <log>
+opt <single|boxed|lexi|pareto|ptake:<k>> <sua|incr> <linear|binary> <fuel> <goals> <log>
     goals = g,g,…      g = <min|max>:<i|u<w>|s<w>>:<0|1 supported>
     log   = e;e;… | .  e = - (unsat) | <id>:<c0>,<c1>,… (model id and the value of every goal term)
   ⇒ <result> # lv=<levels> st=<stack size> calls=<n> # <event> <event> …
@@ -64,7 +64,7 @@ def showCmp : Cmp → String
 def showAtom (a : Atom) : String := s!"{a.g}:{showDom a.dom}:{showCmp a.cmp}:{a.bound}"
 def showC : Constraint → String
   | .atom a => showAtom a
-  | .eq g v => s!"{g}={v}"
+  | .eq g _ v => s!"{g}={v}"
   | .disj as => "(" ++ "|".intercalate (as.map showAtom) ++ ")"
 def showEvent : Event → String
   | .push => "P" | .pop => "O"
@@ -124,6 +124,13 @@ def answer (line : String) : String :=
         finish (fun l => if l.isEmpty then "empty" else
             ";".intercalate (l.map (fun (m, cs) => s!"m{m.id}:{showInts cs}"))) log.size
           (pareto o objOf mx gs fuel s0)
+      else if routine.startsWith "ptake:" then
+        match (routine.drop 6).toNat? with
+        | some k =>
+          finish (fun l => if l.isEmpty then "empty" else
+              ";".intercalate (l.map (fun (m, cs) => s!"m{m.id}:{showInts cs}"))) log.size
+            (paretoPrefix o objOf mx gs fuel k s0)
+        | none => "bad-op"
       else "bad-op"
     | _, _, _, _, _ => "bad-op"
   | ["iv", "init", g] =>
